@@ -404,7 +404,15 @@ template <std::size_t I, class Allocator, class... Parameter>
 template <std::size_t I, class Allocator, class... Parameter>
 [[nodiscard]] constexpr decltype(auto) get(cntgs::BasicContiguousElement<Allocator, Parameter...>&& element) noexcept
 {
-    return std::move(cntgs::get<I>(element.reference_));
+    if constexpr (std::is_reference_v<std::tuple_element_t<I, cntgs::BasicContiguousReference<false, Parameter...>>>)
+    {
+        return std::move(cntgs::get<I>(element.reference_));
+    }
+    else
+    {
+        // FixedSize and VaryingSize parameters are accessed through a span, which is returned by value
+        return cntgs::get<I>(element.reference_);
+    }
 }
 
 template <std::size_t I, class Allocator, class... Parameter>
